@@ -456,7 +456,10 @@ def target_compat(ctx: Ctx) -> None:
                         if isinstance(st, ast.Raise) and cfg.nodes[r].kind == "stmt":
                             return True
                         if isinstance(st, ast.Assign) and "rechunk(" in unparse(st.value) and mentions_name(st.targets[0], "source") and r not in cfg.reachable_from(sink_node):
-                            return True
+                            # the source is rechunked to the very attribute that was compared
+                            rc = [c_ for c_ in ast.walk(st.value) if isinstance(c_, ast.Call) and isinstance(c_.func, ast.Attribute) and c_.func.attr == "rechunk"]
+                            if rc and rc[0].args and f"target.{kind}" in unparse(rc[0].args[0]):
+                                return True
         return False
 
     for c, what in sinks:
